@@ -426,6 +426,33 @@ func Generate(genseed uint64, stream string, thorough bool) *Case {
 		} else {
 			c.FailCb = common.Pick(r, []string{"pre", "post"})
 		}
+		// C04's abort clause: half of the cases fail a node that >= 2 predecessors inside the copied graph share,
+		// mostly with slow storage and K >= 2, so that one predecessor still waits for it when the callback fails
+		if r.Chance(1, 2) {
+			var shared []int
+			for _, k := range ids {
+				np := 0
+				for _, p := range ids {
+					if inSet(g.Nodes[p].Succ, k) {
+						np++
+					}
+				}
+				if np >= 2 && !g.Nodes[k].Foreign() {
+					shared = append(shared, k)
+				}
+			}
+			if len(shared) > 0 {
+				c.FailNode = common.Pick(r, shared)
+				c.FailCb = "skip"
+				if !set[c.FailNode] {
+					c.FailCb = common.Pick(r, []string{"pre", "post"})
+				}
+				c.Slow = r.Chance(2, 3)
+				if c.K == 1 {
+					c.K = 2
+				}
+			}
+		}
 	}
 	// the destination reference may exist already, pointing at some other pre-populated content
 	if (c.Mode == "t" || c.Mode == "r" || c.Mode == "X") && c.Dst != "remote" && len(set) > 0 && r.Chance(1, 3) {
